@@ -10,6 +10,7 @@ import (
 	"github.com/anishathalye/porcupine"
 	clover "github.com/ostafen/clover/v2"
 	"github.com/ostafen/clover/v2/document"
+	"github.com/ostafen/clover/v2/query"
 
 	"verif/sim/mem"
 	"verif/sim/model"
@@ -64,6 +65,21 @@ func canonDocs(docs []*document.Document) []string {
 	sort.Strings(out)
 	return out
 }
+
+// sharedBases are query objects built once per run and used by every client
+// (through the copy-on-write builders): queries must be immutable values.
+func sharedBaseSpec(k int) *model.Query {
+	q := &model.Query{Coll: concColl}
+	switch k {
+	case 1:
+		q.Crit = &model.Crit{Op: "eq", F: "g", A: &model.Operand{Lit: val.Wrap(int64(1))}}
+	case 2:
+		q.Crit = &model.Crit{Op: "gte", F: "g", A: &model.Operand{Lit: val.Wrap(int64(1))}}
+	}
+	return q
+}
+
+const nSharedBases = 3
 
 // ---- generation ------------------------------------------------------------------------------
 
@@ -148,6 +164,13 @@ func genConc(job *Job, prop string, seed, idx uint64) *RunOutcome {
 			case 6:
 				ops = append(ops, Op{K: "DropIndex", Coll: concColl, Field: "g"})
 			case 7:
+				if r.Chance(0.35) {
+					k := r.Intn(nSharedBases)
+					q := sharedBaseSpec(k)
+					q.SortCalls, q.HasSkip, q.Skip, q.HasLimit, q.Limit = true, true, r.Intn(3), true, r.Range(1, 3)
+					ops = append(ops, Op{K: "FindAll", Q: q, Note: fmt.Sprintf("shared:%d", k)})
+					continue
+				}
 				q := qOf()
 				if r.Chance(0.3) {
 					q.SortCalls = true
@@ -268,7 +291,10 @@ func concStep(st *model.DB, op *Op, out concOut) (bool, *model.DB) {
 		if !expectErr("ok") {
 			return false, st
 		}
-		ids := c.Matching(op.Q.Crit)
+		ids := c.Matching(op.Q.Crit) // sorted by _id
+		if strings.HasPrefix(op.Note, "shared:") {
+			ids = model.Window(ids, op.Q.EffSkip(), op.Q.EffLimit()) // Sort() by _id, then the window
+		}
 		want := make([]string, len(ids))
 		for i, id := range ids {
 			want[i] = val.String(c.Docs[id])
@@ -322,6 +348,7 @@ type concRun struct {
 	single   bool    // single-writer store: Begin(true) blocks while a write transaction is open
 	decided  []int
 	panicMsg string
+	shared   []*query.Query
 }
 
 func (cr *concRun) stamp() int64 {
@@ -394,7 +421,13 @@ func (cr *concRun) execOp(op *Op) (out concOut) {
 		has, err := cr.db.HasIndex(op.Coll, op.Field)
 		out.Err, out.Has = concErrClass(err), has
 	case "FindAll":
-		docs, err := cr.db.FindAll(QueryToClover(op.Q))
+		cq := QueryToClover(op.Q)
+		if strings.HasPrefix(op.Note, "shared:") {
+			var k int
+			fmt.Sscanf(op.Note, "shared:%d", &k)
+			cq = cr.shared[k%nSharedBases].Sort().Skip(op.Q.Skip).Limit(op.Q.Limit)
+		}
+		docs, err := cr.db.FindAll(cq)
 		out.Err, out.Docs = concErrClass(err), canonDocs(docs)
 	case "Count":
 		n, err := cr.db.Count(QueryToClover(op.Q))
@@ -472,7 +505,15 @@ func runConc(rf *RunFile) *RunOutcome {
 		return out // the setup did not create the collection (minimised away): nothing to run
 	}
 	initial := e.M.Clone()
+	raceOff := raceLogSize()
 	cr := &concRun{rf: rf, db: e.DB, ctl: e.Ctl}
+	for k := 0; k < nSharedBases; k++ {
+		cr.shared = append(cr.shared, QueryToClover(sharedBaseSpec(k)))
+	}
+	sharedSnap := make([]qSnapshot, len(cr.shared))
+	for k := range cr.shared {
+		sharedSnap[k] = snapQuery(cr.shared[k])
+	}
 	switch b := be.(type) {
 	case *MemBackend:
 		cr.single = !b.Mode.Optimistic
@@ -593,6 +634,23 @@ func runConc(rf *RunFile) *RunOutcome {
 	if e.Ctl.TxOpen != 0 {
 		out.V = &Violation{Props: []string{"C07", "C04"}, Rule: "C04/tx-leak", Msg: fmt.Sprintf("%d transactions still open after every client finished", e.Ctl.TxOpen), Features: feats}
 		return out
+	}
+	if raceBuild() {
+		out.Stats.Checks["race-detector"]++
+		if races := cloverRaces(raceLogSince(raceOff)); len(races) > 0 {
+			rep := races[0]
+			if len(rep) > 3000 {
+				rep = rep[:3000]
+			}
+			out.V = &Violation{Props: []string{"C07"}, Rule: "C07/data-race", Msg: fmt.Sprintf("the race detector reported %d data race(s) involving clover code, first one:\n%s", len(races), rep), Features: feats}
+			return out
+		}
+	}
+	for k := range cr.shared {
+		if !snapQuery(cr.shared[k]).equal(sharedSnap[k]) {
+			out.V = &Violation{Props: []string{"C07", "C09"}, Rule: "C09/query-mutated", Msg: fmt.Sprintf("a query object shared by the clients was modified by the calls made on it: before %+v, after %+v", sharedSnap[k], snapQuery(cr.shared[k])), Features: feats}
+			return out
+		}
 	}
 	// final read by a pseudo-client after everything
 	var history []porcupine.Operation
